@@ -289,6 +289,31 @@ pub fn run(ctx: &Ctx) -> (Stats, Report) {
             }
         }
     }
+    // characters that text-handling code tends to strip or to treat as blanks - byte order mark,
+    // zero-width and non-breaking spaces, line and paragraph separators, tab, CR, LF, NUL - at the
+    // start, at the end and between the tokens of valid pictures: none is a documented token
+    for base in [vec!["YYYY", "-", "MM", "-", "DD"], vec!["Month", " ", "DD"], vec!["HH24", ":", "MI"], vec![" "], vec![]] {
+        for ch in ['\u{feff}', '\u{200b}', '\u{a0}', '\u{2028}', '\u{2029}', '\u{3000}', '\u{200e}', '\u{85}', '\t', '\r', '\n', '\0', '\u{b}', '\u{c}'] {
+            for pos in 0..=base.len() {
+                let mut pic = String::new();
+                for (k, t) in base.iter().enumerate() {
+                    if k == pos {
+                        pic.push(ch);
+                    }
+                    pic.push_str(t);
+                }
+                if pos == base.len() {
+                    pic.push(ch);
+                }
+                st.evaluations += 1;
+                st.fps.push(hash_bytes(19, pic.as_bytes()));
+                st.class("invisible-character-in-picture");
+                if let Err(m) = check_picture(&pic) {
+                    st.fail(pos as u64, Case::new(P, "picture", vec![], vec![pic]), m);
+                }
+            }
+        }
+    }
     // token-count limit: 30..=42 tokens of several shapes, and every documented token repeated
     // (the longest spellings give the longest pictures that are still within the limit)
     for n in 30..=42usize {
@@ -408,7 +433,7 @@ pub fn run(ctx: &Ctx) -> (Stats, Report) {
     st.section("random_token_sequences", &mut mark);
 
     let rep = Report {
-        rule: format!("E1: every string of length 0..={maxlen} over the {}-symbol picture alphabet (exhaustive); near-miss spellings alone and embedded; blank runs of every length 1..=700 (alone, between number tokens, and next to name tokens for every month / weekday name); 30..=42 repetitions of every documented token spelling (and of token + separator pairs) around the 36-token limit. E2: proptest token sequences of 0..=40 tokens (34..=38 over-sampled) with random letter case, blank runs up to 600 and an optional near-miss spelling spliced in. Every rendering goes through both Formatter::format and T::format + write!, and the one-shot Timestamp::parse wrapper must not reject an accepted picture as a format error. Oracle: reference longest-match tokenizer: try_new is Ok iff it accepts (<= 36 tokens), rejection must be Error::InvalidFormat, from Formatter::try_new and from the one-shot parse / format wrappers of all six types; for accepted pictures the text formatted for the probe 2003-04-09 17:28:56.123456 (every field distinct) must equal the reference rendering of the reference token list (identifies token identity, name case and exact blank-run length); every letter-case pattern of MONTH / MON / DAY / DY / AM / PM / A.M. / P.M. (alone, doubled, embedded) is formatted for 19 probes covering every month name, every weekday name and both meridians. Run under both build profiles. Non-trivial = accepted by the reference, or rejected but one end-deletion away from an accepted picture, or containing a near-miss spelling.", ALPHABET.len()),
+        rule: format!("E1: every string of length 0..={maxlen} over the {}-symbol picture alphabet (exhaustive); near-miss spellings alone and embedded; 14 invisible / ignorable characters (byte order mark, zero-width and non-breaking spaces, separators, control whitespace) at every token boundary of valid pictures; blank runs of every length 1..=700 (alone, between number tokens, and next to name tokens for every month / weekday name); 30..=42 repetitions of every documented token spelling (and of token + separator pairs) around the 36-token limit. E2: proptest token sequences of 0..=40 tokens (34..=38 over-sampled) with random letter case, blank runs up to 600 and an optional near-miss spelling spliced in. Every rendering goes through both Formatter::format and T::format + write!, and the one-shot Timestamp::parse wrapper must not reject an accepted picture as a format error. Oracle: reference longest-match tokenizer: try_new is Ok iff it accepts (<= 36 tokens), rejection must be Error::InvalidFormat, from Formatter::try_new and from the one-shot parse / format wrappers of all six types; for accepted pictures the text formatted for the probe 2003-04-09 17:28:56.123456 (every field distinct) must equal the reference rendering of the reference token list (identifies token identity, name case and exact blank-run length); every letter-case pattern of MONTH / MON / DAY / DY / AM / PM / A.M. / P.M. (alone, doubled, embedded) is formatted for 19 probes covering every month name, every weekday name and both meridians. Run under both build profiles. Non-trivial = accepted by the reference, or rejected but one end-deletion away from an accepted picture, or containing a near-miss spelling.", ALPHABET.len()),
         assumptions: vec!["a name token with lower-case first and upper-case second letter, and a mixed-case meridian token, have no style fixed by the statement: compared ignoring case".into()],
         exhaustive: false,
         extra: Default::default(),
